@@ -66,7 +66,8 @@ CallClause(e) ==
 ReenterClause(e) ==
   LET pre == St(PreOf(e))  post == St(e.post)
       exp == [pre EXCEPT !.c = SetBit(pre.c, 1, TRUE), !.ce = 0] IN
-  IF Differs(exp, post) = {} THEN <<"ok", "">>
+  IF e.exc # "none" THEN <<"C03.ShadowCoherent", "re-entering the context raised " \o e.exc>>
+  ELSE IF Differs(exp, post) = {} THEN <<"ok", "">>
   ELSE <<"C03.ShadowCoherent", "re-entering the context changed " \o ToString(Differs(exp, post))>>
 
 \* behavioural probes at the end of a history (C08): a packet sent to the user's pipe-0 address after entering RX;
